@@ -16,8 +16,8 @@ func init() {
 		Assumptions: []string{"encoding/json's scanner and decoder (go1.23.5) as the reference for RFC 8259 validity", "user marshallers / value stringers are outside the domain"},
 		Floors:      map[string]int64{"records_decoded": 100},
 		Jobs: func(tier string, seed int64) []Job {
-			n := pick(tier, 40000, 400000)
-			return chunk("main", "prod", n, pick(tier, 2500, 12500), Job{Timeout: 30 * time.Minute})
+			n := pick(tier, 40000, 1200000)
+			return chunk("main", "prod", n, pick(tier, 2500, 37500), Job{Timeout: 30 * time.Minute})
 		},
 	})
 	register(&Plan{
@@ -29,8 +29,8 @@ func init() {
 		Assumptions: []string{"strconv.Unquote (go1.23.5) decodes what a logfmt reader decodes", "production process mode (the multi-line error dump of testing mode is outside the statement)"},
 		Floors:      map[string]int64{"records_decoded": 100},
 		Jobs: func(tier string, seed int64) []Job {
-			n := pick(tier, 40000, 400000)
-			return chunk("main", "prod", n, pick(tier, 2500, 12500), Job{Timeout: 30 * time.Minute})
+			n := pick(tier, 40000, 1200000)
+			return chunk("main", "prod", n, pick(tier, 2500, 37500), Job{Timeout: 30 * time.Minute})
 		},
 	})
 	register(&Plan{
@@ -43,8 +43,8 @@ func init() {
 		Assumptions: []string{"ShortTag and Source.Extract of the library are used to build the expected tag and caller text (their own correctness is C17 / C14 / C18)", "under go test, error texts are generated without control bytes (the multi-line dump prints the error text verbatim by design)"},
 		Floors:      map[string]int64{"records_decoded": 100, "layout_checked": 50, "sgr_sequences_simulated": 1000},
 		Jobs: func(tier string, seed int64) []Job {
-			n := pick(tier, 24000, 300000)
-			js := chunk("main", "prod", n, pick(tier, 2000, 12500), Job{Timeout: 30 * time.Minute})
+			n := pick(tier, 24000, 800000)
+			js := chunk("main", "prod", n, pick(tier, 2000, 25000), Job{Timeout: 30 * time.Minute})
 			js = append(js, chunk("main", "test", n/2, pick(tier, 2000, 12500), Job{Timeout: 30 * time.Minute})...)
 			return js
 		},
@@ -58,8 +58,8 @@ func init() {
 		Assumptions: []string{"the decoders of C04/C05/C06 (independent JSON walker, logfmt tokenizer, SGR stripper)"},
 		Floors:      map[string]int64{"records_decoded": 100, "records_with_13plus_attrs": 20, "inheriting_child_without_own_attrs": 5},
 		Jobs: func(tier string, seed int64) []Job {
-			n := pick(tier, 40000, 300000)
-			return chunk("main", "prod", n, pick(tier, 2500, 10000), Job{Timeout: 30 * time.Minute})
+			n := pick(tier, 40000, 1500000)
+			return chunk("main", "prod", n, pick(tier, 2500, 47000), Job{Timeout: 30 * time.Minute})
 		},
 	})
 	register(&Plan{
@@ -73,7 +73,7 @@ func init() {
 		Floors:      map[string]int64{"cells": 5000, "records_emitted": 1000, "calls_silent": 1000},
 		Exhaustive:  func(string) bool { return true },
 		Jobs: func(tier string, seed int64) []Job {
-			n := pick(tier, 6, 200)
+			n := pick(tier, 6, 1000)
 			return chunk("table", "prod", n, 1, Job{Timeout: 20 * time.Minute})
 		},
 	})
@@ -90,7 +90,7 @@ func init() {
 			// alphabet 40: lengths <=2 -> 1641 sequences, <=3 -> 65641
 			n := pick(tier, 1641, 65641)
 			js := chunk("exh", "prod", n, pick(tier, 110, 4200), Job{Timeout: 30 * time.Minute})
-			js = append(js, chunk("rand", "prod", pick(tier, 8000, 100000), pick(tier, 500, 6500), Job{Timeout: 30 * time.Minute})...)
+			js = append(js, chunk("rand", "prod", pick(tier, 8000, 300000), pick(tier, 500, 19000), Job{Timeout: 30 * time.Minute})...)
 			return js
 		},
 	})
@@ -104,8 +104,8 @@ func init() {
 		Assumptions: []string{"values whose own methods panic and cyclic values are not generated", "admission by the C01 rule, destination selection by the C03 model"},
 		Floors:      map[string]int64{"calls_admitted": 500, "calls_not_admitted_silent": 100, "records_delivered_whole": 500},
 		Jobs: func(tier string, seed int64) []Job {
-			n := pick(tier, 32000, 400000)
-			js := chunk("main", "prod", n, pick(tier, 2000, 12500), Job{Timeout: 30 * time.Minute})
+			n := pick(tier, 32000, 1000000)
+			js := chunk("main", "prod", n, pick(tier, 2000, 31250), Job{Timeout: 30 * time.Minute})
 			js = append(js, chunk("main", "test", n/4, pick(tier, 1000, 12500), Job{Timeout: 30 * time.Minute})...)
 			return js
 		},
@@ -121,8 +121,8 @@ func init() {
 		Assumptions: []string{"the Go race detector reports only races on executions it sees (happens-before based, no false positives)", "concurrent reconfiguration of a logger is outside the claim and not generated"},
 		Floors:      map[string]int64{"records_decoded": 5000, "max:max_writes_in_flight": 2, "goroutine_switches_in_arrival_order": 100, "print_contexts_used_by_several_goroutines": 1},
 		Jobs: func(tier string, seed int64) []Job {
-			js := chunk("stress", "prod", pick(tier, 32, 300), pick(tier, 2, 10), Job{Timeout: 30 * time.Minute})
-			js = append(js, chunk("stress", "prod", pick(tier, 16, 200), pick(tier, 2, 10), Job{Race: true, Args: []string{"-x", "race=1"}, Timeout: 40 * time.Minute})...)
+			js := chunk("stress", "prod", pick(tier, 32, 1000), pick(tier, 2, 32), Job{Timeout: 30 * time.Minute})
+			js = append(js, chunk("stress", "prod", pick(tier, 16, 600), pick(tier, 2, 20), Job{Race: true, Args: []string{"-x", "race=1"}, Timeout: 40 * time.Minute})...)
 			return js
 		},
 	})
@@ -134,10 +134,10 @@ func init() {
 		Assumptions: []string{"two runtime.GC() cycles empty sync.Pool (victim cache), giving a fresh formatting context for the reference"},
 		Floors:      map[string]int64{"probe_executions": 500, "reuse_of_pooled_context_confirmed": 100, "reuse_after_a_different_class_of_record": 50},
 		Jobs: func(tier string, seed int64) []Job {
-			n := pick(tier, 3200, 30000)
-			js := chunk("hist", "prod", n, pick(tier, 200, 1000), Job{Procs: 1, Timeout: 40 * time.Minute})
+			n := pick(tier, 3200, 100000)
+			js := chunk("hist", "prod", n, pick(tier, 200, 3200), Job{Procs: 1, Timeout: 40 * time.Minute})
 			// under go test a record with an error value ends in a multi-line dump: more per-record state to carry over
-			return append(js, chunk("hist", "test", pick(tier, 1200, 10000), pick(tier, 200, 1000), Job{Procs: 1, Timeout: 40 * time.Minute})...)
+			return append(js, chunk("hist", "test", pick(tier, 1200, 30000), pick(tier, 200, 1900), Job{Procs: 1, Timeout: 40 * time.Minute})...)
 		},
 	})
 	register(&Plan{
@@ -264,8 +264,8 @@ func init() {
 		Assumptions: []string{"attributes bound to the underlying logger itself are not generated (the statement does not say whether a handler shows them)", "an open group always receives at least one attribute (log/slog elides empty groups)"},
 		Floors:      map[string]int64{"records_decoded": 300, "derived_handler_records": 100, "enabled_compared": 1000, "bridge_calls": 500, "bridge_records_decoded": 100, "concurrent_handler_records": 5000, "levels_returned_normally": 79, "explicit_terminations_observed": 2},
 		Jobs: func(tier string, seed int64) []Job {
-			js := chunk("handler", "prod", pick(tier, 24000, 200000), pick(tier, 2000, 12500), Job{Timeout: 30 * time.Minute})
-			js = append(js, chunk("bridge", "prod", pick(tier, 8192, 65536), pick(tier, 1024, 8192), Job{Timeout: 30 * time.Minute})...)
+			js := chunk("handler", "prod", pick(tier, 24000, 800000), pick(tier, 2000, 50000), Job{Timeout: 30 * time.Minute})
+			js = append(js, chunk("bridge", "prod", pick(tier, 8192, 262144), pick(tier, 1024, 16384), Job{Timeout: 30 * time.Minute})...)
 			js = append(js, chunk("levelsweep", "prod", 3, 1, Job{Timeout: 10 * time.Minute})...)
 			js = append(js, chunk("conc", "prod", pick(tier, 12, 200), pick(tier, 3, 10), Job{Timeout: 20 * time.Minute})...)
 			js = append(js, chunk("conc", "prod", pick(tier, 6, 100), pick(tier, 3, 10), Job{Race: true, Args: []string{"-x", "race=1"}, Timeout: 30 * time.Minute})...)
@@ -280,7 +280,7 @@ func init() {
 		Assumptions: []string{"Go's time.Format/time.Parse (go1.23.5) as the reference for layouts", "SetTimeFormat given several layouts: the last non-empty one is the logger's layout (how the variadic setter is written)"},
 		Floors:      map[string]int64{"timestamps_extracted": 1000, "parsed_back": 100},
 		Jobs: func(tier string, seed int64) []Job {
-			return chunk("ts", "prod", pick(tier, 48000, 500000), pick(tier, 3000, 16000), Job{Timeout: 30 * time.Minute})
+			return chunk("ts", "prod", pick(tier, 48000, 2000000), pick(tier, 3000, 62500), Job{Timeout: 30 * time.Minute})
 		},
 	})
 	register(&Plan{
@@ -292,7 +292,7 @@ func init() {
 		Assumptions: []string{"ASCII titles", "a title that differs only in case from a used name may be refused or accepted"},
 		Floors:      map[string]int64{"register_calls": 500, "registrations_accepted": 100, "refusals_checked_for_side_effects": 50, "roundtrips": 5000, "custom_levels_probed": 500},
 		Jobs: func(tier string, seed int64) []Job {
-			return chunk("hist", "prod", pick(tier, 400, 10000), 1, Job{Timeout: 10 * time.Minute})
+			return chunk("hist", "prod", pick(tier, 400, 40000), 1, Job{Timeout: 10 * time.Minute})
 		},
 	})
 	register(&Plan{
@@ -304,7 +304,7 @@ func init() {
 		Assumptions: []string{"replacements are non-empty and not absolute paths", "ResetKnownPathMapping and removal of the home / cwd entries are not generated", "paths that merely string-prefix-match a key without lying under it (/srvx for /srv) are unconstrained"},
 		Floors:      map[string]int64{"queries": 10000, "caller_fields_checked": 20},
 		Jobs: func(tier string, seed int64) []Job {
-			js := chunk("paths", "prod", pick(tier, 8000, 60000), pick(tier, 500, 3750), Job{Timeout: 30 * time.Minute})
+			js := chunk("paths", "prod", pick(tier, 8000, 400000), pick(tier, 500, 12500), Job{Timeout: 30 * time.Minute})
 			// processes whose $HOME is reached through a symbolic link: paths are spelled the way $HOME is spelled
 			real := filepath.Join(buildDir, "home-real")
 			link := filepath.Join(buildDir, "home-link")
